@@ -100,6 +100,44 @@ def runAuditD (op : String) (d : GDesc) (x : Array Rat) : Except String (Array F
     match (M g).inverse with
     | some Mi => return #[relErr (M o) Mi]
     | none => .error "singular"
+  | "a_rplusR" | "a_rplusL" =>
+    -- inputs g, a, out:  M(out) must be M(g)·expm(hat a)  (L: expm(hat a)·M(g)); forward-error scale |M g|·|expm|
+    let g : Vec Rat G.rep := vecR x; let a : Vec Rat G.dof := vecR x G.rep
+    let o : Vec Rat G.rep := vecR x (G.rep + G.dof)
+    let E := matExpR (H a)
+    let P := if op == "a_rplusR" then (M g).mul E else E.mul (M g)
+    let sc := if op == "a_rplusR" then ((absR (M g)).mul (absR E)).maxAbs else ((absR E).mul (absR (M g))).maxAbs
+    return #[relErrScale (M o) P sc]
+  | "a_rminusR" | "a_rminusL" =>
+    -- inputs g1, g2, d = g1 ⊖ g2:  expm(hat d) must be M(g2)⁻¹·M(g1)  (L: M(g1)·M(g2)⁻¹); then the rotation norms² of d
+    let g1 : Vec Rat G.rep := vecR x; let g2 : Vec Rat G.rep := vecR x G.rep
+    let dd : Vec Rat G.dof := vecR x (2 * G.rep)
+    match (M g2).inverse with
+    | none => .error "singular"
+    | some Mi =>
+      let T := if op == "a_rminusR" then Mi.mul (M g1) else (M g1).mul Mi
+      let sc := if op == "a_rminusR" then ((absR Mi).mul (absR (M g1))).maxAbs else ((absR (M g1)).mul (absR Mi)).maxAbs
+      let e := relErrScale (matExpR (H dd)) T sc
+      let rn := (rotIdx d 0).map (fun idx => ratToFloat (idx.foldl (fun s i => s + (x.getD (2 * G.rep + i) 0) ^ 2) 0))
+      return #[e] ++ rn.toArray
+  | "a_draction" =>
+    -- inputs g, v (nv), J (nv × dof):  column j must be the kept rows of M(g)·hat(e_j)·embed(v)
+    -- (d/dε of (g·exp(ε e_j))·v at 0), exactly in rationals
+    let g : Vec Rat G.rep := vecR x
+    let rest := x.size - G.rep
+    let nv := rest / (G.dof + 1)
+    let v := x.extract G.rep (G.rep + nv)
+    let J : RMat := ⟨nv, G.dof, x.extract (G.rep + nv) x.size⟩
+    let emb : Array Rat := match d with
+      | .so2 | .so3 | .c1 => v
+      | _ => v.push 1
+    let mut cols : Array (Array Rat) := #[]
+    for j in [0:G.dof] do
+      let ej : Vec Rat G.dof := .of (fun i => if i.val = j then 1 else 0)
+      let c := (((M g).mul (H ej)).mul (colVec emb)).a
+      cols := cols.push (c.extract 0 nv)
+    let Jo : RMat := RMat.ofFn nv G.dof (fun i j => (cols.getD j #[]).getD i 0)
+    return #[relErrScale J Jo ((absR (M g)).maxAbs * (colVec emb).maxAbs)]
   | "a_act" =>
     let g : Vec Rat G.rep := vecR x
     let nv := x.size - G.rep
